@@ -1118,7 +1118,7 @@ func anchorMatches(a Anchor, kind, pattern string) bool {
 	if a.Kind != kind {
 		return false
 	}
-	if a.Pattern == pattern {
+	if a.Pattern == pattern || a.Pattern == "*" {
 		return true
 	}
 	if kind == "call" || kind == "go" {
